@@ -1499,8 +1499,10 @@ mod convert {
                 ConvertLineState::ReadRow => {}
                 ConvertLineState::SetAddress | ConvertLineState::ConvertRow => {
                     start = self.address;
-                    rows.push(self.convert_row()?);
+                    // Leave this state even if the row cannot be converted, so that
+                    // repeated calls make progress.
                     self.state = ConvertLineState::ReadRow;
+                    rows.push(self.convert_row()?);
                 }
             }
             while let Some(row) = self.read_row()? {
